@@ -953,6 +953,22 @@ Definition decode_prop (tag : option string) (resp_code : option N) (ps : list (
 Definition prop_decode (tag : option string) (l : list raw) : res string :=
   do v <- prop_decode_select tag l; decode_id v.
 
+(** Response.DecodeProp(v1, ..., vk) (elements.go:180-217, after repair
+    f543abd): every value in turn, each with its own name, the status of the
+    response, the search over the propstats and raw.Decode; the first failure
+    ends the call.  (raw.Decode rewrites attribute names of the stored value in
+    place, see [decoded_in_place], never element names: the selection of a later
+    value is not affected by the decoding of an earlier one.) *)
+Fixpoint decode_prop_all (tags : list (option string)) (resp_code : option N) (ps : list (N * list raw))
+  : res (list string) :=
+  match tags with
+  | [] => Ok []
+  | t :: r =>
+      do s <- decode_prop t resp_code ps;
+      do l <- decode_prop_all r resp_code ps;
+      Ok (s :: l)
+  end.
+
 (** Observation: decoded (with the id), error with IsNotFound, other error, panic. *)
 Inductive prop_obs : Type := PSel (id : string) | PNotFound | POther | PPanic.
 
@@ -962,6 +978,18 @@ Definition prop_obs_agrees (m : res string) (o : prop_obs) : bool :=
   | Err c, PNotFound => N.eqb c 404
   | Err c, POther => negb (N.eqb c 404)
   | Panic, PPanic => true
+  | _, _ => false
+  end.
+
+(** The same for several values: the ids in the order of the arguments. *)
+Inductive propm_obs : Type := PMSel (ids : list string) | PMNotFound | PMOther | PMPanic.
+
+Definition propm_obs_agrees (m : res (list string)) (o : propm_obs) : bool :=
+  match m, o with
+  | Ok l, PMSel l' => list_eqb String.eqb l l'
+  | Err c, PMNotFound => N.eqb c 404
+  | Err c, PMOther => negb (N.eqb c 404)
+  | Panic, PMPanic => true
   | _, _ => false
   end.
 
